@@ -110,7 +110,7 @@ E["C20"] = dict(
 E["C07"] = dict(
     level="exploration", ref="DESIGN.md §3 C07",
     text="Coarse (exploration): the first-order optimality conditions of OLS (X'r = 0, sum r = 0) and ridge (raw: X'r = alpha w, b = 0; standardised: n (X_j - mu_j)'r = alpha w_j V_j / n, no square root), solver agreement and the predict identity are decided by TLC as fixed-point polynomial identities (2^-12..2^-4, tolerance computed in the spec) on every recorded fit of seeded integer problems n<=24, p<=6 (QR/SVD/Cholesky, f64 plus coarse f32); a one-regressor closed-form design model shows the predicates accept the rounded exact answer and reject a 16-unit perturbation.",
-    note="Finer accuracy, larger sizes, f32 standardised ridge and f32 solver agreement are not covered; the f32 tolerance is norm-wise.",
+    note="Finer accuracy, larger sizes, f32 standardised ridge and f32 solver agreement are not covered; the f32 tolerance is norm-wise. A sample of fits also goes through the ndarray bindings with column-major X and negatively strided y.",
     technique=TECH_B)
 
 E["C08"] = dict(
@@ -128,7 +128,7 @@ E["C09"] = dict(
 E["C14"] = dict(
     level="exploration", ref="DESIGN.md §3 C14",
     text="Coarse (exploration): orthonormality (sigma^2-metric in correlation mode, no square root), the affine map against exactly centred data, zero means, decorrelation, ordering, the eigen-equation of the exact rational covariance, and captured variance equal to the top-k eigenvalue sum of the validated full fit are decided by TLC on every recorded fit for every k in both modes and both code paths (m<=40, p<=8); truncated SVD: orthonormal basis, linear map, Frobenius optimum, k = p rejected; a rational-axes design model checks the predicates (Sound / Sharp).",
-    note="Resolution 2^-10..2^-4; the eigen-equation is explicit only in covariance mode; constant columns in correlation mode are unconstrained; no spec->impl replay.",
+    note="Resolution 2^-10..2^-4; the eigen-equation is explicit only in covariance mode; constant columns in correlation mode are unconstrained; no spec->impl replay. Invariance families: per-column offsets 2^20..2^30 and exact power-of-two column rescaling (per column in correlation mode, common in covariance mode).",
     technique=TECH_B)
 
 
